@@ -779,3 +779,69 @@ def extras(prop, tier, seed):
         return []
     from pyvc.report import run_bounded
     return [run_bounded("smtlib_export", tier, seed), run_bounded("quote", tier, seed)]
+
+
+# ---------------------------------------------------------------------------
+# sort spellings from pysmt/typing.py itself (as_smtlib of the type objects, run from source)
+# ---------------------------------------------------------------------------
+class SortSpellingVariant(Variant):
+    """PySMTType.as_smtlib on type objects built by the real constructors: a sort constant (built-in or declared with arity 0)
+    is written as its name, an instance of a sort constructor as `(name arg ...)` - never a parenthesised name without
+    arguments, which is not an SMT-LIB sort; with funstyle=True the text is prefixed by the empty parameter list."""
+    prop_ids = ("C07",)
+
+    def __init__(self, world, what, funstyle):
+        self.world, self.what, self.funstyle = world, what, funstyle
+        self.qualname = "pysmt.typing.PySMTType.as_smtlib"
+        self.name = "sort-text:%s[%s]" % (what, "declaration" if funstyle else "term")
+
+    def setup(self, ex):
+        from pyvc.symex import ClassRef
+        W = self.world
+        for q in [q for q in list(W.contracts) + list(W.builtins) if str(q).startswith("new:pysmt.typing.")]:
+            W.contracts.pop(q, None)
+        Str_ = z3.StringSort()
+        if self.what in ("Int", "Bool", "Real", "String"):
+            cls = {"Int": "_IntType", "Bool": "_BoolType", "Real": "_RealType", "String": "_StringType"}[self.what]
+            self.o = W.instantiate(ex, ClassRef("pysmt.typing." + cls), [], {})
+            self.want = z3.StringVal(self.what)
+        else:
+            name = z3.Const("declared_name", Str_)
+            ex.assume(z3.Length(name) > 0)
+            n = 0 if self.what == "declared-constant" else 1
+            decl = W.instantiate(ex, ClassRef("pysmt.typing._TypeDecl"), [name, n], {})
+            ex.call(W.getattr(ex, decl, "set_custom_type_flag"), [], {})
+            if n == 0:
+                self.o = W.instantiate(ex, ClassRef("pysmt.typing.PySMTType"), [], {"decl": decl, "args": ()})
+                self.want = name
+            else:
+                arg = W.instantiate(ex, ClassRef("pysmt.typing._IntType"), [], {})
+                self.o = W.instantiate(ex, ClassRef("pysmt.typing.PySMTType"), [], {"decl": decl, "args": (arg,)})
+                self.want = z3.Concat(z3.StringVal("("), name, z3.StringVal(" Int)"))
+        fi = W.repo.method(self.o.cls, "as_smtlib")
+        return W.wrap_func(fi, fi.module, bound=self.o), [], {"funstyle": self.funstyle}
+
+    def check(self, ex, outcome):
+        kind, r = outcome
+        if kind == "raise":
+            return [("no-exception", z3.BoolVal(False))]
+        from pyvc import builtins_impl as BI_
+        want = z3.Concat(z3.StringVal("() "), self.want) if self.funstyle else self.want
+        try:
+            got = BI_.to_str(r)
+        except Exception:
+            return [("returns-text", z3.BoolVal(False))]
+        return [("sort-written-as-smtlib-requires", got == want)]
+
+
+_base_variants7z = variants
+
+
+def variants(world, tier="quick", only=None):
+    out = _base_variants7z(world, tier, None)
+    for what in ("Int", "Bool", "Real", "String", "declared-constant", "declared-instance"):
+        for fs in (False, True):
+            out.append(SortSpellingVariant(world, what, fs))
+    if only:
+        out = [v for v in out if any(o in v.name for o in only)]
+    return out
